@@ -158,7 +158,6 @@ h_divq2!(c02_q_divq2_f64x2_l70_f64x3_l130, 4, (Bvf<u64, 3>), f64x2(70), f64x3(13
 h_divq2!(c02_q_divq2_bvfix_l20_bvfix_l128, 4, (Bv), bvfix(20), bvfix(128));
 h_divq2!(c02_q_divq2_bvd2_l65_f64x3_l130, 4, (Bvf<u64, 3>), bvd2(65), f64x3(130));
 h_divq2!(c02_t_divq2_bvfix_l100_bvfix_l128, 4, (Bv), bvfix(100), bvfix(128));
-h_divq2!(c02_t_divq2_bvdyn2_l128_bvfix_l64, 6, (Bv), bvdyn2(128), bvfix(64));
 h_divq2!(c02_t_divq2_bvd2_l128_u64, 4, int, bvd2(128), iu64());
 h_divq!(c02_t_divq_bvd2_l128_bvd2_l128, 6, (Bvd), bvd2(128), bvd2(128));
 
